@@ -412,6 +412,9 @@ class Gen(object):
             for k in range(n):
                 try:
                     if c.kind == 'segment':
+                        if i == 0 and k > 0 and loop.kind == 'loop':
+                            # the opening segment again: by the matching rule this opens a new instance of the loop
+                            inst = inst[:-1] + ((loop.id, self.next_serial(loop, inst[:-1])),)
                         g = self.emit(c, inst)
                         self.committed(g)
                     else:
@@ -447,6 +450,15 @@ class Gen(object):
         return n
 
     def envelope_values(self, node, ctl, sub_term, rep):
+        keep, self.k.structural = self.k.structural, False      # envelope segments are always well formed
+        keep_alpha, self.k.alphabet = self.k.alphabet, V.PLAIN
+        try:
+            return self._envelope_values(node, ctl, sub_term, rep)
+        finally:
+            self.k.structural = keep
+            self.k.alphabet = keep_alpha
+
+    def _envelope_values(self, node, ctl, sub_term, rep):
         v = self.gen_values(node)
         sid = node.id
         if sid == 'ISA':
